@@ -50,6 +50,7 @@ type OpProfile struct {
 	PNodeSecond    float64 // a root node selection carries a fragment on a second entity type (default 0.2)
 	ForceNodeRoot  bool    // the operation starts with a root node selection
 	PNodeIDOnly    float64 // forced node roots come in twos and threes; this share of them selects only `id` in the member fragment
+	PRootTypename  float64 // __typename at the root of the operation (answered by the gateway itself), next to the data fields
 	PMirror        float64 // select one root field twice (aliases m1/m2) with near-identical sub-selections
 	IDStyle        int
 }
@@ -232,6 +233,19 @@ func (g *opGen) rootSelection(root *ast.Definition, kw string) string {
 	}
 	if len(parts) > 1 {
 		g.tag("multi-root")
+	}
+	if kw != "subscription" && g.p.PRootTypename > 0 && g.chance(g.p.PRootTypename) {
+		// ... or introspection fields whose answer is the same for the monolith and the merged schema
+		t := pick(g.r, []string{"__typename", "rt: __typename", "... on " + root.Name + " { __typename }", "__typename", "__schema { queryType { name } }", `__type(name: "` + root.Name + `") { kind name }`})
+		if kw != "query" && strings.HasPrefix(t, "__schema") || kw != "query" && strings.HasPrefix(t, "__type(") {
+			t = "__typename" // __schema and __type are fields of the query root only
+		}
+		g.tag("root-typename")
+		if g.r.Intn(2) == 0 {
+			parts = append([]string{t}, parts...)
+		} else {
+			parts = append(parts, t)
+		}
 	}
 	return "{ " + strings.Join(parts, " ") + " }"
 }
